@@ -89,7 +89,10 @@ class HistoryGen:
     def pick_key(self, walk, present, want_present):
         rng = self.rng
         if rng.random() < self.adversarial:
-            k = self.adversarial_key(walk, present, want_present)
+            try:
+                k = self.adversarial_key(walk, present, want_present)
+            except TypeError:
+                k = None   # keys of mixed types got stored (object keys)
             if k is not None:
                 return k
         if want_present and present:
@@ -97,7 +100,16 @@ class HistoryGen:
         return rng.choice(self.universe)
 
     # -- operations -------------------------------------------------------
+    exclude = ()
+
     def next_op(self, walk, present):
+        for _ in range(20):
+            r = self._next_op(walk, present)
+            if r[0] not in self.exclude:
+                return r
+        return ('len', ())
+
+    def _next_op(self, walk, present):
         """present: list of keys currently stored (model order)."""
         rng = self.rng
         self._advance_phase()
